@@ -172,9 +172,10 @@ func c18lane(c *Check, rng *rand.Rand, lane, edits int) {
 		return
 	}
 	extra := 0 // filler addresses (outside 127.0.0.0/8) added to the next write
+	forceDup := false
 	write := func(method string) {
 		ips := st.ips()
-		if rng.Intn(3) == 0 && len(ips) > 1 {
+		if (forceDup || rng.Intn(3) == 0) && len(ips) > 1 {
 			// the same address listed more than once
 			ips = append(ips, ips[rng.Intn(len(ips))], ips[0])
 		}
@@ -242,9 +243,13 @@ func c18lane(c *Check, rng *rand.Rand, lane, edits int) {
 		} else if kind == "remove-one-of-duplicates" {
 			st.enable = true
 			apply("add")
+			apply("add")
+			forceDup = true
 			write(method)
+			time.Sleep(300 * time.Millisecond)
 			apply("remove")
-			write(method)
+			write(method) // one address fewer, but (with the repeated lines) not fewer lines
+			forceDup = false
 		} else if kind == "double" {
 			apply("add")
 			write(methods[rng.Intn(len(methods))])
